@@ -18,6 +18,25 @@ repository is imported or executed):
   class / fall off the end).  Rules phrase "X is stored exactly when C" over
   these outcomes, so they are indifferent to early returns against nesting,
   hoisted locals, extracted helpers, guard order and De Morgan forms.
+  Loop vocabulary (`_for1`): a `for` over a short literal is unrolled; a loop
+  that leaves early is a decision on `any(..)`; a loop that extends locals is
+  replaced by the closed form of every extended local -- list (append / extend
+  / `+=` / `xs = xs + [..]` / `[*xs, ..]`), set (add / update / `|=`), dict
+  (`d[k] = v` / update / `|=`), str and int (`+=` / `s = s + ..`) -- with any
+  number of parts per iteration and a number that depends on the path through
+  the body: `[y for x in it for y in PARTS(x)]` where PARTS is the decision
+  tree of the body (one list display per path).  Locals re-bound by the body
+  are per-iteration temporaries, or flags (`ok = False` on some iterations ->
+  `not any(..)` afterwards).  The body is executed once, on the pre-loop
+  state, which is only sound when no iteration reads what another wrote:
+  every use of a pre-loop value of a local the loop changes is found (by
+  identity; constants are replaced by markers first, so they can neither be
+  folded into decisions nor confused with equal literals) and refused, except
+  the two reads with a closed form: emptiness of a list every iteration adds
+  to (`if parts: parts.append(sep)`) and a first-iteration flag, both
+  rewritten to `index > 0` over `enumerate(it)`.  The loop variable is
+  alpha-renamed when it would capture a free name of a pending value
+  (`free_names` is scope-aware: comprehension / lambda binders are not free).
 * `BoolSpace` -- truth-table reasoning over path conditions: atoms are
   normalised (`!=`/`not in`/mirrored operands are the same atom), comparisons of
   one subject against constants are evaluated over a finite universe built from
@@ -82,6 +101,7 @@ def cond_expr(e, pol):
 
 
 RAISE = "__raise__"
+YIELDED = "__yielded__"
 
 
 def raise_leaf(cls):
@@ -93,11 +113,45 @@ def is_raise_leaf(e):
 
 
 def free_names(e, _cache={}):
+    """Names that occur FREE in expression e: a name bound by a comprehension
+    generator or a lambda parameter inside e is not free in e (the iterable of
+    the first generator and the defaults of a lambda are evaluated outside the
+    binder's scope; later generators see the targets of the earlier ones)."""
     k = id(e)
     hit = _cache.get(k)
     if hit is not None and hit[0] is e:
         return hit[1]
-    out = {n.id for n in ast.walk(e) if isinstance(n, ast.Name)}
+    out = set()
+
+    def walk(n, bound):
+        if isinstance(n, ast.Name):
+            if n.id not in bound:
+                out.add(n.id)
+            return
+        if isinstance(n, (ast.ListComp, ast.SetComp, ast.GeneratorExp, ast.DictComp)):
+            b = bound
+            for g in n.generators:
+                walk(g.iter, b)
+                b = b | set(target_names(g.target))
+                for c in g.ifs:
+                    walk(c, b)
+            if isinstance(n, ast.DictComp):
+                walk(n.key, b)
+                walk(n.value, b)
+            else:
+                walk(n.elt, b)
+            return
+        if isinstance(n, ast.Lambda):
+            a = n.args
+            for d in list(a.defaults) + [d for d in a.kw_defaults if d is not None]:
+                walk(d, bound)
+            b = bound | {x.arg for x in a.posonlyargs + a.args + a.kwonlyargs} | ({a.vararg.arg} if a.vararg else set()) | ({a.kwarg.arg} if a.kwarg else set())
+            walk(n.body, b)
+            return
+        for ch in ast.iter_child_nodes(n):
+            walk(ch, bound)
+
+    walk(e, frozenset())
     if len(_cache) > 20000:
         _cache.clear()
     _cache[k] = (e, out)
@@ -162,9 +216,9 @@ _STR_METHODS = {
     "replace", "count", "zfill", "isdigit", "isdecimal", "isascii", "translate", "partition", "rpartition", "find", "rjust", "ljust", "removeprefix", "removesuffix",
 }
 _BYTES_METHODS = {"decode", "hex", "startswith", "endswith", "count"}
-_SEQ_METHODS = {"index", "count", "copy"}
-_DICT_METHODS = {"get", "items", "keys", "values", "copy"}
-_SET_METHODS = {"issubset", "issuperset", "union", "intersection", "difference", "isdisjoint", "copy"}
+_SEQ_METHODS = {"index", "count", "copy", "__getitem__", "__contains__"}
+_DICT_METHODS = {"get", "items", "keys", "values", "copy", "__getitem__", "__contains__"}
+_SET_METHODS = {"issubset", "issuperset", "union", "intersection", "difference", "isdisjoint", "copy", "__contains__"}
 _BUILTINS = {
     "chr": chr, "ord": ord, "len": len, "set": set, "frozenset": frozenset, "list": list, "tuple": tuple, "dict": dict, "str": str,
     "int": int, "bool": bool, "min": min, "max": max, "sorted": sorted, "any": any, "all": all, "zip": zip, "enumerate": enumerate,
@@ -322,6 +376,11 @@ class Evaluator:
                 q = qual_name(self.prog, module, e)
                 if q in _EXTERNALS:
                     return _EXTERNALS[q]
+            if isinstance(e, ast.Attribute) and isinstance(e.value, ast.Name) and e.value.id in env:
+                # a pure method of a value, taken as a value (`map(table.__getitem__, data)`)
+                recv = env[e.value.id]
+                if self._pure_method(recv, e.attr):
+                    return getattr(recv, e.attr)
             return self._name(e, module, env)
         if isinstance(e, ast.UnaryOp):
             v = self._ev(e.operand, module, env)
@@ -420,6 +479,12 @@ class Evaluator:
             return self._call(e, module, env)
         raise NormError("unsupported %s" % type(e).__name__)
 
+    @staticmethod
+    def _pure_method(recv, attr):
+        return (isinstance(recv, str) and attr in _STR_METHODS) or (isinstance(recv, bytes) and attr in _BYTES_METHODS) \
+            or (isinstance(recv, (list, tuple)) and attr in _SEQ_METHODS) or (isinstance(recv, dict) and attr in _DICT_METHODS) \
+            or (isinstance(recv, (set, frozenset)) and attr in _SET_METHODS)
+
     def _call(self, e, module, env):
         if any(isinstance(a, ast.Starred) for a in e.args) or any(k.arg is None for k in e.keywords):
             raise NormError("star arguments")
@@ -438,10 +503,7 @@ class Evaluator:
                 fn = _EXTERNALS[q]
             elif isinstance(f, ast.Attribute):
                 recv = self._ev(f.value, module, env)
-                ok = (isinstance(recv, str) and f.attr in _STR_METHODS) or (isinstance(recv, bytes) and f.attr in _BYTES_METHODS) \
-                    or (isinstance(recv, (list, tuple)) and f.attr in _SEQ_METHODS) or (isinstance(recv, dict) and f.attr in _DICT_METHODS) \
-                    or (isinstance(recv, (set, frozenset)) and f.attr in _SET_METHODS)
-                if not ok:
+                if not self._pure_method(recv, f.attr):
                     raise NormError("method %s of %s" % (f.attr, type(recv).__name__))
                 fn = getattr(recv, f.attr)
             elif isinstance(f, ast.Lambda):
@@ -570,10 +632,18 @@ class Exec:
         for d in n.decorator_list:
             if chain(d) not in ("staticmethod", "classmethod"):
                 return False
+        yields = set()
         for x in walk_no_nested(n):
-            if isinstance(x, (ast.Yield, ast.YieldFrom, ast.Await)):
+            if isinstance(x, ast.Await):
                 return False
-        return True
+            if isinstance(x, (ast.Yield, ast.YieldFrom)):
+                yields.add(id(x))
+        # a generator is executed as the function returning the list of what it yields (see _run); only plain
+        # `yield e` / `yield from it` statements (nothing is sent in, no value of the yield expression is used)
+        for x in walk_no_nested(n):
+            if isinstance(x, ast.Expr) and id(x.value) in yields:
+                yields.discard(id(x.value))
+        return not yields
 
     def _kind(self, fi):
         if fi.cls is None:
@@ -905,10 +975,18 @@ class Exec:
         env = dict(binding)
         st = St(env)
         body = fi.node.body
+        generator = any(isinstance(x, (ast.Yield, ast.YieldFrom)) for x in walk_no_nested(fi.node))
+        if generator:
+            # A generator function stands for the sequence it yields: `yield e` appends to a hidden list that is the
+            # result.  (Consumers here -- list(), join, comprehensions, for -- drain it completely; laziness only moves
+            # the point at which an exception of the body surfaces, not whether and which.)
+            env[YIELDED] = ast.List(elts=[], ctx=ast.Load())
         outs = self._block(body, [st], fr)
         for s in outs:
             if s.end is None:
                 s.end = ("fall", None, fi.node)
+            if generator and s.end[0] in ("fall", "return") and s.end[1] is None:
+                s.end = ("return", s.env[YIELDED], s.end[2])
         return outs
 
     def _locals_of(self, fi):
@@ -987,6 +1065,17 @@ class Exec:
             v = n.value
             if isinstance(v, ast.Await):
                 raise AnalysisError("await in %s" % fr.fi.short)
+            if isinstance(v, (ast.Yield, ast.YieldFrom)):
+                if not isinstance(s.env.get(YIELDED), ast.List):
+                    raise AnalysisError("yield outside a generator executed in place in %s" % fr.fi.short)
+                out = []
+                for s2, val in self._values(v.value if v.value is not None else ast.Constant(value=None), s, fr, n):
+                    if not self._end_if_raise(s2, val, n):
+                        s2.trace.append(("eval", val, None, n))
+                        new = val if isinstance(v, ast.Yield) else ast.Starred(value=val, ctx=ast.Load())
+                        s2.env[YIELDED] = ast.List(elts=list(s2.env[YIELDED].elts) + [new], ctx=ast.Load())
+                    out.append(s2)
+                return out
             if isinstance(v, ast.Call):
                 if is_log_call(v) or (chain(v.func) or "").split(".")[0] in ("warn", "warnings"):
                     return [s]
@@ -1020,6 +1109,7 @@ class Exec:
                 if self._end_if_raise(s2, val, n):
                     out.append(s2)
                     continue
+                val = flatten_display(val)
                 s2.trace.append(("eval", val, None, n))
                 for t in targets:
                     self._assign(t, val, s2, fr, n)
@@ -1040,7 +1130,11 @@ class Exec:
                         old = ast.Name(id=t.id, ctx=ast.Load())
                         old._local = True
                     if isinstance(n.op, ast.Add) and isinstance(old, ast.List):
-                        s2.env[t.id] = ast.List(elts=list(old.elts) + [ast.Starred(value=val, ctx=ast.Load())], ctx=ast.Load())
+                        s2.env[t.id] = flatten_display(ast.List(elts=list(old.elts) + [ast.Starred(value=val, ctx=ast.Load())], ctx=ast.Load()))
+                    elif isinstance(n.op, ast.BitOr) and isinstance(old, ast.Set):
+                        s2.env[t.id] = ast.Set(elts=list(old.elts) + [ast.Starred(value=val, ctx=ast.Load())])
+                    elif isinstance(n.op, ast.BitOr) and isinstance(old, ast.Dict):
+                        s2.env[t.id] = ast.Dict(keys=list(old.keys) + [None], values=list(old.values) + [val])
                     else:
                         s2.env[t.id] = ast.BinOp(left=old, op=n.op, right=val)
                 else:
@@ -1130,12 +1224,34 @@ class Exec:
 
     def _assign(self, t, val, s, fr, node):
         if isinstance(t, ast.Name):
-            if isinstance(val, ast.Call) and isinstance(val.func, ast.Name) and val.func.id == "list" and not val.args and not val.keywords:
-                val = ast.List(elts=[], ctx=ast.Load())
-            s.env[t.id] = val
+            if isinstance(val, ast.Call) and isinstance(val.func, ast.Name) and val.func.id in ("list", "set", "dict") and not val.args and not val.keywords \
+                    and not getattr(val.func, "_local", False):
+                val = {"list": ast.List(elts=[], ctx=ast.Load()), "set": ast.Set(elts=[]), "dict": ast.Dict(keys=[], values=[])}[val.func.id]
+            s.env[t.id] = flatten_display(val)
+            return
+        if isinstance(t, ast.Subscript) and isinstance(t.value, ast.Name) and isinstance(s.env.get(t.value.id), ast.Dict) and t.value.id in fr.locals and not isinstance(t.slice, ast.Slice):
+            # d[k] = v on a local dict under construction: {**d, k: v} (a later key overrides an earlier one in a display, too)
+            old = s.env[t.value.id]
+            key = self.clone(t.slice, s.env, fr)
+            s.env[t.value.id] = ast.Dict(keys=list(old.keys) + [key], values=list(old.values) + [val])
             return
         if isinstance(t, (ast.Tuple, ast.List)):
-            if any(isinstance(x, ast.Starred) for x in t.elts):
+            stars = [i for i, x in enumerate(t.elts) if isinstance(x, ast.Starred)]
+            if len(stars) == 1:
+                # a, *rest, z = v:  a = v[0], rest = list(v[1:-1]), z = v[-1]  (v is evaluated once: it is a closed
+                # expression here; the length requirement of the unpacking is the business of the escape analysis)
+                k, after = stars[0], len(t.elts) - stars[0] - 1
+                if isinstance(val, (ast.Tuple, ast.List)) and not any(isinstance(x, ast.Starred) for x in val.elts) and len(val.elts) >= len(t.elts) - 1:
+                    parts = list(val.elts[:k]) + [ast.List(elts=list(val.elts[k:len(val.elts) - after]), ctx=ast.Load())] + list(val.elts[len(val.elts) - after:])
+                else:
+                    parts = [ast.Subscript(value=val, slice=ast.Constant(value=i), ctx=ast.Load()) for i in range(k)]
+                    sl = ast.Slice(lower=ast.Constant(value=k) if k else None, upper=ast.Constant(value=-after) if after else None, step=None)
+                    parts.append(ast.Call(func=ast.Name(id="list", ctx=ast.Load()), args=[ast.Subscript(value=val, slice=sl, ctx=ast.Load())], keywords=[]))
+                    parts += [ast.Subscript(value=val, slice=ast.Constant(value=i - after), ctx=ast.Load()) for i in range(after)]
+                for x, v in zip(t.elts, parts):
+                    self._assign(x.value if isinstance(x, ast.Starred) else x, v, s, fr, node)
+                return
+            if stars:
                 for x in t.elts:
                     for nm in target_names(x):
                         s.env.pop(nm, None)
@@ -1189,22 +1305,34 @@ class Exec:
         self._forget(name, s, node)
 
     def _mutation(self, call, s, fr):
-        """`name.append(v)` / `name.extend(it)` on a local list under construction becomes a new value of the local."""
+        """A growing method call on a local collection under construction becomes a new value of the local:
+        list.append / extend, set.add / update, dict.update (one positional argument)."""
         f = call.func
-        if not (isinstance(f, ast.Attribute) and isinstance(f.value, ast.Name) and f.attr in ("append", "extend") and len(call.args) == 1 and not call.keywords):
+        if not (isinstance(f, ast.Attribute) and isinstance(f.value, ast.Name) and len(call.args) == 1 and not call.keywords):
             return None
         old = s.env.get(f.value.id)
-        if not isinstance(old, ast.List) and not (isinstance(old, ast.Call) and chain(old.func) == "list" and not old.args):
+        if isinstance(old, ast.Call) and isinstance(old.func, ast.Name) and old.func.id in ("list", "set", "dict") and not old.args and not old.keywords:
+            old = {"list": ast.List(elts=[], ctx=ast.Load()), "set": ast.Set(elts=[]), "dict": ast.Dict(keys=[], values=[])}[old.func.id]
+        ok = (isinstance(old, ast.List) and f.attr in ("append", "extend")) or (isinstance(old, ast.Set) and f.attr in ("add", "update")) or (isinstance(old, ast.Dict) and f.attr == "update")
+        if not ok:
             return None
-        elts = list(old.elts) if isinstance(old, ast.List) else []
         out = []
         for s2, val in self._values(call.args[0], s, fr, call):
             if self._end_if_raise(s2, val, call):
                 out.append(s2)
                 continue
             s2.trace.append(("eval", val, None, call))
-            new = val if f.attr == "append" else ast.Starred(value=val, ctx=ast.Load())
-            s2.env[f.value.id] = ast.List(elts=elts + [new], ctx=ast.Load())
+            if isinstance(old, ast.Dict):
+                # d.update(m) accepts a mapping or an iterable of pairs: {**d, **dict(m)}
+                m = val if isinstance(val, (ast.Dict, ast.DictComp)) else ast.Call(func=ast.Name(id="dict", ctx=ast.Load()), args=[val], keywords=[])
+                s2.env[f.value.id] = ast.Dict(keys=list(old.keys) + [None], values=list(old.values) + [m])
+            else:
+                one = f.attr in ("append", "add")
+                if not one and isinstance(val, (ast.List, ast.Tuple)) and not any(isinstance(x, ast.Starred) for x in val.elts):
+                    new = list(val.elts)  # extend with a display: its elements, one by one
+                else:
+                    new = [val if one else ast.Starred(value=val, ctx=ast.Load())]
+                s2.env[f.value.id] = ast.List(elts=list(old.elts) + new, ctx=ast.Load()) if isinstance(old, ast.List) else ast.Set(elts=list(old.elts) + new)
             out.append(s2)
         return out
 
@@ -1404,16 +1532,36 @@ class Exec:
             return self._unrolled(n, s, it.elts, fr)
         body0 = s.fork()
         body0.trace = []
+        # Scoping: the loop becomes a comprehension that BINDS the loop variable.  A pending value in which the same
+        # name occurs free (a parameter or an unknown local of that name -- names bound by a comprehension or lambda
+        # inside the value are not free) would be captured by that binder: the loop variable is alpha-renamed then.
+        rename = {}
         for nm in tnames:
             body0.env.pop(nm, None)
             if any(isinstance(v, ast.AST) and nm in free_names(v) for v in s.env.values()):
-                raise AnalysisError("loop variable %s shadows a name used in pending values in %s" % (nm, fr.fi.short))
+                rename[nm] = self._fresh(nm)
+                v = ast.Name(id=rename[nm], ctx=ast.Load())
+                v._local = True
+                body0.env[nm] = v
+        bnames = [rename.get(nm, nm) for nm in tnames]
+        # A constant bound before the loop to a local the body assigns (`query = ""`, `n = 0`, `first = True`) is the
+        # value of the FIRST iteration only.  The body is executed once, on the pre-loop values; a constant would be
+        # folded into the decisions (`if query:` -> never) and could not be told from an equal literal afterwards, so
+        # the body sees a marker instead: extensions are recognised relative to it, any other use is a read of the
+        # running value (refused below).
+        base = dict(s.env)
+        assigned = {x.id for st_ in n.body for x in walk_no_nested(st_) if isinstance(x, ast.Name) and isinstance(x.ctx, (ast.Store, ast.Del))}
+        for k in sorted(assigned):
+            if isinstance(s.env.get(k), ast.Constant) and k not in tnames:
+                m = ast.Name(id=self._fresh("running_" + k), ctx=ast.Load())
+                m._local = True
+                base[k] = body0.env[k] = m
         lfr = Frame(fr.fi, fr.depth, fr.stack, fr.locals, fr)
         outs = self._block(n.body, [body0], lfr)
-        tgt = self._clone_target(n.target, {})
+        tgt = self._clone_target(n.target, rename)
 
         def depends(e):
-            return isinstance(e, ast.AST) and bool(set(tnames) & free_names(e))
+            return isinstance(e, ast.AST) and bool(set(bnames) & free_names(e))
 
         def gen(elt, ifs=()):
             return ast.GeneratorExp(elt=elt, generators=[ast.comprehension(target=tgt, iter=it, ifs=list(ifs), is_async=0)])
@@ -1424,12 +1572,40 @@ class Exec:
         stay = [o for o in outs if o.end is None or o.end[0] == "continue"]
         # names first bound inside the body are temporaries of one iteration
         temps = {k for o in outs for k in o.env if k not in s.env and k not in tnames}
-        changed = lambda o: {k for k in s.env if k not in tnames and o.env.get(k) is not s.env.get(k)}
-        for k in temps:
-            s.env[k] = _opaque(k, n)
+        changed = lambda o: {k for k in s.env if k not in tnames and o.env.get(k) is not base.get(k)}
+        # what the iterations that stay in the loop do to the locals that existed before it: per local either
+        # an accumulation (kind, [(conds, parts added on that path)]) or a per-iteration temporary
+        idx = self._emptiness_reads(s, base, stay, outs, exits, changed)
+        if idx is not None:
+            # the body asks whether an earlier iteration already added something: iterate over (index, element)
+            itgt = ast.Name(id=idx, ctx=ast.Store())
+            itgt._local = True
+            tgt = ast.Tuple(elts=[itgt, tgt], ctx=ast.Store())
+            it = ast.Call(func=ast.Name(id="enumerate", ctx=ast.Load()), args=[it], keywords=[])
+        accs, rebound = self._classify_loop_effects(s, base, stay, outs, changed, fr)
+        after = {k: _opaque(k, n) for k in list(temps) + list(rebound) + [nm for nm in tnames]}
+        for k in sorted(rebound):
+            # a local the iterations re-bind (never read: checked above).  One loop-independent value on some paths is
+            # a flag: after the loop it holds that value iff some iteration took such a path.  A value bound afresh by
+            # every iteration is a temporary (unknown afterwards).  Anything else has no closed form: refused when the
+            # local is used outside the loop at all, unknown otherwise.
+            hits = [(o, o.env.get(k)) for o in stay if o.env.get(k) is not base.get(k)]
+            if hits and not exits and all(isinstance(v, ast.AST) and not depends(v) and dump(v) == dump(hits[0][1]) for _, v in hits):
+                took = ast.Call(func=ast.Name(id="any", ctx=ast.Load()), args=[gen(mk_or(mk_and(cond_expr(e, p) for e, p in o.conds()) for o, _ in hits))], keywords=[])
+                took._loop = n
+                new_, old_ = hits[0][1], s.env[k]
+                if isinstance(new_, ast.Constant) and isinstance(old_, ast.Constant) and isinstance(new_.value, bool) and isinstance(old_.value, bool):
+                    # a boolean flag is the quantified condition itself (any() is a bool)
+                    after[k] = new_ if new_.value == old_.value else (took if new_.value else mk_not(took))
+                else:
+                    after[k] = ast.IfExp(test=took, body=new_, orelse=old_)
+            elif len(hits) != len(stay) or exits:
+                inside = {id(x) for x in ast.walk(n)}
+                if any(isinstance(x, ast.Name) and x.id == k and isinstance(x.ctx, ast.Load) and id(x) not in inside for x in ast.walk(fr.fi.node)):
+                    raise AnalysisError("loop that re-binds local %s on some iterations in %s: outside the vocabulary" % (k, fr.fi.short))
         if exits:
             # search loop: no state is carried from one iteration to the next
-            if any(changed(o) for o in stay):
+            if accs:
                 raise AnalysisError("loop that both accumulates and exits early in %s: outside the vocabulary" % fr.fi.short)
             sig = None
             for o in exits:
@@ -1449,53 +1625,306 @@ class Exec:
             hit = s.fork()
             if self._add_cond(hit, anyc, True, n):
                 _, o, delta = sig
+                hit.env.update(after)
                 hit.env.update(delta)
                 if o.end[0] != "break":
                     hit.end = o.end
                 res.append(hit)
             miss = s.fork()
             if self._add_cond(miss, anyc, False, n):
+                miss.env.update(after)
                 res.extend(self._block(n.orelse, [miss], fr) if n.orelse else [miss])
             return res
-        # accumulation
-        accs = set()
-        for o in stay:
-            accs |= changed(o)
         if not accs:
             # a loop without effect on the state (only evaluations)
             ev_exprs = [ev[1] for o in stay for ev in o.trace if ev[0] == "eval"]
             if ev_exprs:
                 s.trace.append(("eval", ast.ListComp(elt=ast.Tuple(elts=ev_exprs, ctx=ast.Load()), generators=[ast.comprehension(target=tgt, iter=it, ifs=[], is_async=0)]), None, n))
+            s.env.update(after)
             return self._block(n.orelse, [s], fr) if n.orelse else [s]
-        if len(accs) != 1:
-            raise AnalysisError("loop updating several locals in %s: outside the vocabulary" % fr.fi.short)
-        acc = accs.pop()
-        old = s.env.get(acc)
-        if not isinstance(old, ast.List):
-            raise AnalysisError("loop updating local %s that is not a list under construction in %s: outside the vocabulary" % (acc, fr.fi.short))
-        items = []
-        skip = ast.Name(id="__skip__", ctx=ast.Load())
-        nskip = 0
-        for o in stay:
-            new = o.env.get(acc)
-            if new is old:
-                items.append((o.conds(), skip))
-                nskip += 1
-                continue
-            if not (isinstance(new, ast.List) and len(new.elts) == len(old.elts) + 1 and all(a is b for a, b in zip(new.elts, old.elts)) and not isinstance(new.elts[-1], ast.Starred)):
-                raise AnalysisError("loop appending other than exactly one element per iteration in %s: outside the vocabulary" % fr.fi.short)
-            items.append((o.conds(), new.elts[-1]))
-        elt = tree_of(items)
-        if elt is None:
-            raise AnalysisError("loop body of %s has no decision-tree form" % fr.fi.short)
-        ifs = []
-        if nskip:
-            ifs = [mk_or(mk_and(cond_expr(e, p) for e, p in c) for c, leaf in items if leaf is not skip)]
-        comp = ast.ListComp(elt=elt, generators=[ast.comprehension(target=tgt, iter=it, ifs=ifs, is_async=0)])
-        comp._loop = n
-        s.env[acc] = ast.List(elts=list(old.elts) + [ast.Starred(value=comp, ctx=ast.Load())], ctx=ast.Load())
-        s.trace.append(("eval", comp, None, n))
+        # accumulation: every accumulated local gets its closed form
+        for acc in sorted(accs):
+            kind, items = accs[acc]
+            new, comp = self._accumulated(kind, s.env[acc], items, tgt, it, fr)
+            comp._loop = n
+            s.env[acc] = new
+            s.trace.append(("eval", comp, None, n))
+        s.env.update(after)
         return self._block(n.orelse, [s], fr) if n.orelse else [s]
+
+    # -- accumulation: the vocabulary of loop effects --------------------------------------------------------------
+    @staticmethod
+    def _acc_kind(old):
+        """What kind of value under construction a local holds before a loop (None: not one the executor can extend)."""
+        if isinstance(old, ast.List):
+            return "list"
+        if isinstance(old, ast.Set):
+            return "set"
+        if isinstance(old, ast.Dict):
+            return "dict"
+        if _is_str_expr(old):
+            return "str"
+        if isinstance(old, ast.Constant) and isinstance(old.value, int) and not isinstance(old.value, bool):
+            return "num"
+        return None
+
+    @staticmethod
+    def _contribution(kind, old, new):
+        """The parts one iteration adds to the value `old` to get `new` (in order), or None when `new` is not an
+        extension of `old`.  list / set: the added elements (possibly starred: extend / update); dict: (key, value)
+        pairs (key None: a merged mapping); str / num: the operands added on the right."""
+        if new is old:
+            return []
+        if kind in ("list", "set"):
+            if type(new) is type(old) and len(new.elts) >= len(old.elts) and all(a is b for a, b in zip(new.elts, old.elts)):
+                return list(new.elts[len(old.elts):])
+            return None
+        if kind == "dict":
+            if isinstance(new, ast.Dict) and len(new.keys) >= len(old.keys) and all(a is b for a, b in zip(new.keys, old.keys)) and all(a is b for a, b in zip(new.values, old.values)):
+                return list(zip(new.keys[len(old.keys):], new.values[len(old.values):]))
+            return None
+        parts, cur = [], new
+        while cur is not old:
+            if not (isinstance(cur, ast.BinOp) and isinstance(cur.op, ast.Add)):
+                return None
+            parts.append(cur.right)
+            cur = cur.left
+        return parts[::-1]
+
+    def _emptiness_reads(self, s, base, stay, outs, exits, changed):
+        """The two reads of a running value that have a closed form, both asking "is this the first iteration?":
+        `if parts:` / `len(parts) > 0` on a list every iteration of which adds at least one element (the
+        `if parts: parts.append(sep)` join idiom: before iteration i the list is non-empty iff it was before the loop or
+        i > 0), and the truth of a flag that every iteration sets to the same constant (`first = True ... first = False`).
+        The conditions are rewritten in place (to a constant, or to `index > 0` over a fresh index variable, whose name
+        is returned); outcomes that become infeasible are dropped.  Not applied to loops that can leave early."""
+        if exits:
+            return None
+        names = set()
+        for o in stay:
+            names |= changed(o)
+        idx = None
+
+        def index_positive():
+            nonlocal idx
+            if idx is None:
+                idx = self._fresh("index")
+            nm = ast.Name(id=idx, ctx=ast.Load())
+            nm._local = True
+            return ast.Compare(left=nm, ops=[ast.Gt()], comparators=[ast.Constant(value=0)])
+
+        def rewrite(test, known):
+            """test(cond expr) -> polarity it asserts or None; known: constant truth or the expression `index > 0`"""
+            for o in list(outs):
+                trace, feasible = [], True
+                for ev in o.trace:
+                    pol = test(ev[1]) if ev[0] == "cond" else None
+                    if pol is None:
+                        trace.append(ev)
+                    elif isinstance(known, bool):
+                        feasible = feasible and ((ev[2] == pol) == known)
+                    else:
+                        trace.append(("cond", known, ev[2] == pol, ev[3], dump(known)))
+                if not feasible:
+                    outs.remove(o)
+                    if o in stay:
+                        stay.remove(o)
+                else:
+                    o.trace = trace
+
+        # the first-iteration flag: a constant before the loop, the same other constant assigned by every iteration that
+        # stays; tested (`if first:` / `if not first:`) before it is assigned.  Its truth before iteration i is that of
+        # the old constant for i == 0 and of the new one for i > 0.
+        for k in sorted(names):
+            marker, old = base.get(k), s.env.get(k)
+            if marker is old or not isinstance(old, ast.Constant):
+                continue
+            news = [o.env.get(k) for o in stay]
+            if not all(isinstance(v, ast.Constant) and type(v.value) is type(news[0].value) and v.value == news[0].value for v in news):
+                continue
+            if not any(ev[0] == "cond" and ev[1] is marker for o in outs for ev in o.trace):
+                continue
+            t_old, t_new = bool(old.value), bool(news[0].value)
+            if t_old == t_new:
+                rewrite(lambda e: True if e is marker else None, t_old)
+            else:
+                # truthy  <=>  (index > 0) == t_new
+                pos = index_positive()
+                rewrite(lambda e: t_new if e is marker else None, pos)
+        for k in sorted(names):
+            old = s.env.get(k)
+            if not isinstance(old, ast.List):
+                continue
+            parts = [self._contribution("list", old, o.env.get(k)) for o in stay]
+            if not all(p is not None and any(not isinstance(x, ast.Starred) for x in p) for p in parts):
+                continue
+
+            def emptiness(e):
+                """(True: e says `old` is non-empty / False: empty) or None"""
+                if e is old:
+                    return True
+                if isinstance(e, ast.Compare) and len(e.ops) == 1 and isinstance(e.left, ast.Call) and isinstance(e.left.func, ast.Name) and e.left.func.id == "len" \
+                        and len(e.left.args) == 1 and e.left.args[0] is old and not e.left.keywords and isinstance(e.comparators[0], ast.Constant):
+                    return {(ast.Gt, 0): True, (ast.NotEq, 0): True, (ast.GtE, 1): True, (ast.Eq, 0): False, (ast.Lt, 1): False, (ast.LtE, 0): False}.get((type(e.ops[0]), e.comparators[0].value))
+                return None
+
+            if not any(ev[0] == "cond" and emptiness(ev[1]) is not None for o in outs for ev in o.trace):
+                continue
+            if any(not isinstance(x, ast.Starred) for x in old.elts):
+                rewrite(emptiness, True)
+            elif not old.elts:
+                rewrite(emptiness, index_positive())
+            # (a starred prefix: emptiness before the loop unknown -> the read check below refuses)
+        return idx
+
+    def _classify_loop_effects(self, s, base, stay, outs, changed, fr):
+        """-> ({local: (kind, [(conds, parts)])} for the locals every iteration extends, {locals re-bound per iteration}).
+        Sound only when no iteration reads what an earlier one wrote: the body was executed on the values the locals
+        had BEFORE the loop, so any expression of the body that contains such a value (found by identity: substitution
+        never copies a value) other than as the prefix being extended is a read of the running value -> refused."""
+        names = set()
+        for o in stay:
+            names |= changed(o)
+        accs, rebound = {}, set()
+        spine = set()  # ids of the nodes `old + a + b` of str / num accumulations (they are the extension itself, not a read)
+        for k in sorted(names):
+            old = base.get(k)  # what the body saw: the value before the loop, or its marker
+            kind = self._acc_kind(s.env.get(k))
+            items = []
+            if kind is not None:
+                for o in stay:
+                    parts = self._contribution(kind, old, o.env.get(k))
+                    if parts is None:
+                        items = None
+                        break
+                    items.append((o.conds(), parts))
+                    cur = o.env.get(k)
+                    while kind in ("str", "num") and cur is not old:
+                        spine.add(id(cur))
+                        cur = cur.left
+            if kind is None or items is None:
+                if kind is not None and any(self._contribution(kind, old, o.env.get(k)) for o in stay):
+                    raise AnalysisError("loop that both extends and re-binds local %s in %s: outside the vocabulary" % (k, fr.fi.short))
+                rebound.add(k)
+            else:
+                accs[k] = (kind, items)
+        watched = set(names) | {k for k in base if base[k] is not s.env.get(k)}
+        if watched:
+            produced = []
+            for o in outs:  # the iterations that leave the loop read the running values too
+                produced.extend(ev[1] for ev in o.trace if ev[0] in ("cond", "eval") and id(ev[1]) not in spine)
+                if o.end is not None and isinstance(o.end[1], ast.AST):
+                    produced.append(o.end[1])
+                for k in (rebound if o in stay else changed(o)):
+                    v = o.env.get(k)
+                    if isinstance(v, ast.AST) and v is not base.get(k):
+                        produced.append(v)
+            for k, (kind, items) in accs.items():
+                for _, parts in items:
+                    for p in parts:
+                        produced.extend([x for x in p if x is not None] if isinstance(p, tuple) else [p])
+            for k in sorted(watched):
+                old = base.get(k)
+                if isinstance(old, ast.AST) and any(x is old for e in produced for x in ast.walk(e)):
+                    raise AnalysisError("loop body reads local %s, which the loop itself changes, in %s: outside the vocabulary" % (k, fr.fi.short))
+        return accs, rebound
+
+    def _accumulated(self, kind, old, items, tgt, it, fr):
+        """Closed form of an accumulation.  items: [(conds of the path through the body, parts added on it)].
+        One plain element on every path (or none on some) keeps the comprehension form `[E for x in it if C]`;
+        anything else (several parts per iteration, a number of parts that depends on the path, extend / update,
+        str / set / dict accumulators) is the flattening `[y for x in it for y in PARTS(x)]`, where PARTS(x) is the
+        decision tree of the body with one list display per path.  -> (new value of the local, the comprehension)."""
+        def comp_of(ifs=(), more=()):
+            return [ast.comprehension(target=tgt, iter=it, ifs=list(ifs), is_async=0)] + list(more)
+
+        if kind == "list" and all(len(p) <= 1 and not isinstance(p[0] if p else None, ast.Starred) for _, p in items):
+            skip = ast.Name(id="__skip__", ctx=ast.Load())
+            leaves = [(c, p[0] if p else skip) for c, p in items]
+            elt = tree_of(leaves)
+            if elt is None:
+                raise AnalysisError("loop body of %s has no decision-tree form" % fr.fi.short)
+            ifs = []
+            if any(leaf is skip for _, leaf in leaves):
+                ifs = [mk_or(mk_and(cond_expr(e, p) for e, p in c) for c, leaf in leaves if leaf is not skip)]
+            comp = ast.ListComp(elt=elt, generators=comp_of(ifs))
+            return ast.List(elts=list(old.elts) + [ast.Starred(value=comp, ctx=ast.Load())], ctx=ast.Load()), comp
+
+        def display(parts):
+            if kind != "dict":
+                return ast.List(elts=list(parts), ctx=ast.Load())
+            elts = []
+            for k, v in parts:
+                if k is None:  # a merged mapping contributes its items
+                    elts.append(ast.Starred(value=ast.Call(func=ast.Attribute(value=v, attr="items", ctx=ast.Load()), args=[], keywords=[]), ctx=ast.Load()))
+                else:
+                    elts.append(ast.Tuple(elts=[k, v], ctx=ast.Load()))
+            return ast.List(elts=elts, ctx=ast.Load())
+
+        tree = tree_of([(c, display(p)) for c, p in items])
+        if tree is None:
+            raise AnalysisError("loop body of %s has no decision-tree form" % fr.fi.short)
+
+        def var(ctx):
+            v = ast.Name(id=y, ctx=ctx)
+            v._local = True
+            return v
+        y = self._fresh("part")
+        if kind == "dict":
+            y2 = self._fresh("part")
+            kv = [ast.Name(id=y, ctx=ast.Store()), ast.Name(id=y2, ctx=ast.Store())]
+            for v in kv:
+                v._local = True
+            inner = ast.comprehension(target=ast.Tuple(elts=kv, ctx=ast.Store()), iter=tree, ifs=[], is_async=0)
+            val = ast.Name(id=y2, ctx=ast.Load())
+            val._local = True
+            comp = ast.DictComp(key=var(ast.Load()), value=val, generators=comp_of((), [inner]))
+            return ast.Dict(keys=list(old.keys) + [None], values=list(old.values) + [comp]), comp
+        inner = ast.comprehension(target=var(ast.Store()), iter=tree, ifs=[], is_async=0)
+        comp = ast.ListComp(elt=var(ast.Load()), generators=comp_of((), [inner]))
+        if kind == "list":
+            return ast.List(elts=list(old.elts) + [ast.Starred(value=comp, ctx=ast.Load())], ctx=ast.Load()), comp
+        if kind == "set":
+            return ast.Set(elts=list(old.elts) + [ast.Starred(value=comp, ctx=ast.Load())]), comp
+        if kind == "str":
+            total = ast.Call(func=ast.Attribute(value=ast.Constant(value=""), attr="join", ctx=ast.Load()), args=[comp], keywords=[])
+        else:
+            total = ast.Call(func=ast.Name(id="sum", ctx=ast.Load()), args=[comp], keywords=[])
+        return ast.BinOp(left=old, op=ast.Add(), right=total), comp
+
+
+def _is_str_expr(e):
+    """Is the value certainly a str?  (a str constant, an f-string, `sep.join(..)`, `'..' % x`, a str + anything that adds to it)"""
+    if isinstance(e, ast.Constant):
+        return isinstance(e.value, str)
+    if isinstance(e, ast.JoinedStr):
+        return True
+    if isinstance(e, ast.BinOp) and isinstance(e.op, ast.Add):
+        return _is_str_expr(e.left) or _is_str_expr(e.right)
+    if isinstance(e, ast.BinOp) and isinstance(e.op, ast.Mod):
+        return _is_str_expr(e.left)
+    if isinstance(e, ast.Call) and isinstance(e.func, ast.Attribute) and e.func.attr == "join" and _is_str_expr(e.func.value):
+        return True
+    return False
+
+
+def flatten_display(val):
+    """One spelling for a list built from another: `a + [x]`, `[*a, x]` with a list display a -> `[a0, .., x]`
+    (the elements keep their identity, so an extension of a list under construction is recognised as one)."""
+    if isinstance(val, ast.BinOp) and isinstance(val.op, ast.Add):
+        l, r = flatten_display(val.left), flatten_display(val.right)
+        if isinstance(l, ast.List) and isinstance(r, ast.List):
+            return ast.List(elts=list(l.elts) + list(r.elts), ctx=ast.Load())
+        return val
+    if isinstance(val, ast.List) and any(isinstance(x, ast.Starred) and isinstance(x.value, (ast.List, ast.Tuple)) for x in val.elts):
+        elts = []
+        for x in val.elts:
+            if isinstance(x, ast.Starred) and isinstance(x.value, (ast.List, ast.Tuple)):
+                elts.extend(flatten_display(x.value).elts if isinstance(x.value, ast.List) else x.value.elts)
+            else:
+                elts.append(x)
+        return flatten_display(ast.List(elts=elts, ctx=ast.Load()))
+    return val
 
 
 def substitute(e, mapping):
